@@ -405,11 +405,17 @@ class PseudoNetCDFFile(PseudoNetCDFSelfReg, object):
                 from PseudoNetCDF.coordutil import _parse_ref_date
                 unit, base = timeunits.split(' since ')
                 rdate = _parse_ref_date(base)
-                if rdate.tzinfo is not None:
-                    rdate = rdate.astimezone(utc)
+                # keep the zone as an offset: a shift to UTC would have to
+                # be done in the calendar of the variable
+                off = rdate.utcoffset()
+                offmin = 0 if off is None else \
+                    off.days * 1440 + off.seconds // 60
                 timeunits = '%s since %04d-%02d-%02d %02d:%02d:%02d' % (
                     unit, rdate.year, rdate.month, rdate.day,
                     rdate.hour, rdate.minute, rdate.second)
+                timeunits += '%s%02d:%02d' % (
+                    '-' if offmin < 0 else '+',
+                    abs(offmin) // 60, abs(offmin) % 60)
             except Exception:
                 pass
         calendar = getattr(self.variables[timekey], 'calendar', 'standard')
@@ -1786,54 +1792,37 @@ class PseudoNetCDFFile(PseudoNetCDFSelfReg, object):
                 refdate = _parse_ref_date(base)
 
                 if calendar in _calendaryearlike:
-                    refyear = refdate.year
-                    # Get a year for relative day calculations
-                    yearlike = _calendaryearlike[calendar]
-                    # In that year, how many seconds and days are there
-                    yearseconds = (date(yearlike + 1, 1, 1) -
-                                   date(yearlike, 1, 1)).total_seconds()
-                    yeardays = yearseconds / 3600 / 24
-
-                    # Get a new reference date in yearlike
-                    crefdate = datetime(yearlike, 1, 1, tzinfo=utc)
-                    if refdate.month != 1 or refdate.day != 1:
-                        # Get start date in yearlike
-                        refcdate = datetime(
-                            yearlike, refdate.month, refdate.day, tzinfo=utc)
-                        # Calculate delta in years
-                        addyears = (
-                            crefdate - refcdate).total_seconds() / yearseconds
-                    else:
-                        addyears = 0
-                    # Convert time to fractional years, including change in
-                    # reference
-                    incrdenom = {'years': 1, 'days': yeardays,
-                                 'hours': yeardays * 24,
-                                 'minutes': yeardays * 24 * 60,
-                                 'seconds': yeardays * 24 * 60}[unit]
-                    fracyearincrs = time[:] / incrdenom + addyears
-                    # Split into years and days
-                    yearincrs = np.array(fracyearincrs // 1).astype('i')
-                    dayincrs = (fracyearincrs % 1) * yeardays
-                    # Add days to the calendar year reference
-                    cdays = [crefdate + timedelta(days=dayinc)
-                             for dayinc in dayincrs]
-                    try:
-                        # Combine calendar specific month and day with new year
-                        out = np.array([
-                            datetime(refyear + yearinc, cday.month,
-                                     cday.day, tzinfo=utc)
-                            for yearinc, cday in zip(yearincrs, cdays)])
-                    except Exception:
-                        warn(('Years calculated from %d day year, but ' +
-                              'month/days calculated for actual year. ' +
-                              'Usually means data has Feb 29th in a non ' +
-                              'leap year') % yeardays)
-                        out = np.array([
-                            datetime(refyear + yearinc, 1, 1, tzinfo=utc) +
-                            timedelta(days=float(dayinc))
-                            for yearinc, dayinc in zip(yearincrs, dayincrs)])
-
+                    # Fixed-length years: integer arithmetic in microseconds
+                    # counted from year 0 of the calendar (UTC)
+                    usec = timedelta(microseconds=1)
+                    usday = 86400 * 1000000
+                    # a real year with the month lengths of the calendar
+                    day0 = date(_calendaryearlike[calendar], 1, 1)
+                    yeardays = (date(day0.year + 1, 1, 1) - day0).days
+                    refdoy = (date(day0.year, refdate.month, refdate.day) -
+                              day0).days
+                    reftod = timedelta(
+                        hours=refdate.hour, minutes=refdate.minute,
+                        seconds=refdate.second,
+                        microseconds=refdate.microsecond
+                    ) - (refdate.utcoffset() or timedelta(0))
+                    refus = ((refdate.year * yeardays + refdoy) * usday +
+                             reftod // usec)
+                    out = []
+                    for i in time[:]:
+                        if unit == 'years':
+                            incr = timedelta(days=float(i) * yeardays)
+                        else:
+                            incr = timedelta(**{unit: float(i)})
+                        days, us = divmod(refus + incr // usec, usday)
+                        year, doy = divmod(days, yeardays)
+                        cday = day0 + timedelta(days=doy)
+                        # ValueError for a date that no datetime can hold
+                        # (Feb 29 of a common year in all_leap, year < 1)
+                        out.append(
+                            datetime(year, cday.month, cday.day, tzinfo=utc) +
+                            timedelta(microseconds=us))
+                    out = np.array(out)
                 else:
                     out = refdate + \
                         np.array([timedelta(**{unit: float(i)})
